@@ -92,6 +92,7 @@ type Outcome struct {
 	StopSeq      int // event seq at which the stop was accepted, -1 if none
 	StopInject   int // event seq at which the stop was issued (before fan-out), -1 if none
 	StopInjected bool
+	StopDropped  bool // POST /stop answered 200 but the stop was never fanned out (20 s)
 	SignalReturn int // event seq at which Agent.Signal returned (agent level), -1
 	// agent level
 	Dir          string
@@ -184,6 +185,7 @@ type Runner struct {
 	stuck        atomic.Bool
 	stopped      atomic.Bool // stop injected
 	stopHost     string      // step whose own hook hosted the stop injection ("" if none)
+	stopDropped  atomic.Bool // an accepted stop request was never fanned out
 	finished     atomic.Bool
 	aborted      atomic.Bool
 	inconcl      atomic.Value
@@ -671,11 +673,18 @@ func (r *Runner) injectStop(where string) {
 		r.Sched.Signal(g, syscall.SIGTERM, nil, spec.Stop.Kind == "http")
 		c.Log("CTL", "", "stop.accepted")
 	case spec.Stop.Kind == "http":
+		accepted := true
 		if err := r.Client.Stop(r.DAG); err != nil {
+			accepted = false
 			c.Log("CTL", "", "stop.http.error:"+err.Error())
 			r.inconcl.Store("http stop failed: " + err.Error())
 		}
-		r.waitPass()
+		if !r.waitPass() && accepted {
+			// POST /stop was answered 200 and 20 s later nothing has been stopped
+			r.inconcl.Store("")
+			r.stopDropped.Store(true)
+			c.Log("CTL", "", "stop.dropped")
+		}
 		c.Log("CTL", "", "stop.accepted")
 	default: // agent signal
 		go func() {
@@ -688,11 +697,13 @@ func (r *Runner) injectStop(where string) {
 	go r.drain()
 }
 
-func (r *Runner) waitPass() {
+func (r *Runner) waitPass() bool {
 	select {
 	case <-r.signalPass:
+		return true
 	case <-time.After(20 * time.Second):
 		r.inconcl.Store("stop was not fanned out within 20 s")
+		return false
 	}
 }
 
@@ -890,6 +901,7 @@ func (r *Runner) finish(out *Outcome, _ error) *Outcome {
 	if v := r.inconcl.Load(); v != nil {
 		out.Inconclusive = v.(string)
 	}
+	out.StopDropped = r.stopDropped.Load()
 	out.LiveChecks, out.LiveBad = r.liveChecks, r.liveBad
 	for _, e := range out.Events {
 		if e.Kind == "CTL" && e.Info == "stop.accepted" && out.StopSeq < 0 {
